@@ -61,7 +61,7 @@ def below(x, n):
 def below_axioms():
     x = z3.Const('bx', S.PyObj())
     n, i = z3.Ints('bn bi')
-    ax = [z3.ForAll([x, n], z3.Implies(z3.And(below(x, n), S.is_ref(x)), S.addr(x) < n), patterns=[below(x, n)]),
+    ax = [z3.ForAll([x, n], z3.Implies(z3.And(below(x, n), S.is_ref(x)), z3.And(S.addr(x) < n, S.addr(x) > 0)), patterns=[below(x, n)]),
           z3.ForAll([x, n, i], z3.Implies(z3.And(below(x, n), S.is_tup(x), i >= 0, i < z3.Length(S.items(x))),
                                           below(S.items(x)[i], n)),
                     patterns=[z3.MultiPattern(below(x, n), S.items(x)[i])])]
@@ -360,7 +360,7 @@ class Exec:
         self._bound_consts = set()
         self.epochs = {}
         self.stmt_hooks = [(k[len('after_stmt:'):], h) for k, h in contract.ghost_hooks.items() if k.startswith('after_stmt:')]
-        self.global_axioms = below_axioms()
+        self.global_axioms = below_axioms() + list(registry.axioms)
         self._number_loops(self.fn)
         self.notes = []
 
@@ -815,7 +815,7 @@ class Exec:
                     new = cur
             elif name in self.reg.classes:
                 ci = self.reg.classes[name]
-                new = S.Val(name) if ci.kind == 'value' else (S.Obj(name) if not self.reg.subclasses.get(name) else None)
+                new = S.Val(name) if ci.kind == 'value' else (S.Opaque(name) if ci.kind == 'opaque' else (S.Obj(name) if not self.reg.subclasses.get(name) else None))
                 if cur.kind in ('obj', 'val') and new is not None and cur.kind == new.kind and cur.cls != name:
                     new = cur if name in self._all_bases(cur.cls) else new
             if new is not None:
@@ -914,6 +914,15 @@ class Exec:
             return
         if isinstance(tgt, ast.Subscript):
             o = self.ev(tgt.value, st)
+            oty = S.strip_opt(o.ty)
+            if oty.kind == 'opaque':
+                fn = self.reg.opaque_setitem.get(oty.name)
+                if fn is None:
+                    raise Unsupported(f'item store on {oty}: {ast.unparse(tgt)}')
+                oty = self.obj_class(o, st, ast.unparse(tgt))
+                self.used_trusted.add(fn.trusted_name)
+                fn(self, st, V(o.t, oty), self.ev_key(tgt.slice, st), v)
+                return
             k = self.ev(tgt.slice, st)
             self.set_item(o, k, v, st, ast.unparse(tgt))
             return
@@ -954,6 +963,12 @@ class Exec:
 
     def set_attr(self, o, attr, v, st, desc):
         ty = self.obj_class(o, st, desc)
+        if ty.kind == 'opaque':
+            fn = self.reg.opaque_setattr.get((ty.name, attr))
+            if fn is not None:
+                self.used_trusted.add(fn.trusted_name)
+                fn(self, st, V(o.t, ty), v)
+                return
         if ty.kind not in ('obj',):
             raise Unsupported(f'attribute store on {ty}: {desc}')
         ci = self.class_info(ty.cls)
@@ -1135,6 +1150,11 @@ class Exec:
             fty = ci.fields[attr]
             st.assume(S.has_type(t, fty, st.next_ref))
             return V(t, fty)
+        if ty.kind == 'opaque':
+            fn = self.reg.opaque_getattr.get((ty.name, attr))
+            if fn is not None:
+                self.used_trusted.add(fn.trusted_name)
+                return fn(self, st, V(o.t, ty))
         raise Unsupported(f'attribute {attr} on {ty} ({desc})')
 
     def ev_Tuple(self, e, st):
@@ -1195,10 +1215,26 @@ class Exec:
         o = self.ev(e.value, st)
         desc = ast.unparse(e)
         ty = self.obj_class(o, st, desc)
+        if ty.kind == 'opaque':
+            fn = self.reg.opaque_getitem.get(ty.name)
+            if fn is None:
+                raise Unsupported(f'subscript on {ty}: {desc}')
+            self.used_trusted.add(fn.trusted_name)
+            return fn(self, st, V(o.t, ty), self.ev_key(e.slice, st))
         if isinstance(e.slice, ast.Slice):
             return self.ev_slice(o, ty, e.slice, st, desc)
         k = self.ev(e.slice, st)
         return self.get_item(o, ty, k, st, desc)
+
+    def ev_key(self, node, st):
+        """subscript key for opaque objects: a value, ('slice', lo, hi) or a tuple of those"""
+        if isinstance(node, ast.Slice):
+            if node.step is not None:
+                raise Unsupported('slice step')
+            return ('slice', self.ev(node.lower, st) if node.lower is not None else None, self.ev(node.upper, st) if node.upper is not None else None)
+        if isinstance(node, ast.Tuple):
+            return tuple(self.ev_key(x, st) for x in node.elts)
+        return self.ev(node, st)
 
     def _split_index(self, e, st):
         """`s.split(sep)[0]` and `s.split(sep)[-1]` with a non-empty constant separator, without materialising the list"""
@@ -1389,6 +1425,11 @@ class Exec:
 
     def ev_Compare(self, e, st):
         left = self.ev(e.left, st)
+        if len(e.ops) == 1 and S.strip_opt(left.ty).kind == 'opaque' and not isinstance(e.ops[0], (ast.Is, ast.IsNot)):
+            fn = self.reg.opaque_compare.get(S.strip_opt(left.ty).name)
+            if fn is not None:
+                self.used_trusted.add(fn.trusted_name)
+                return fn(self, st, left, type(e.ops[0]).__name__, self.ev(e.comparators[0], st))
         res = []
         for op, rn in zip(e.ops, e.comparators):
             right = self.ev(rn, st)
@@ -1548,6 +1589,10 @@ class Exec:
         if k == 'int':
             i = S.ival(v.t)
             return V(S.mk_str(z3.If(i >= 0, z3.IntToStr(i), z3.Concat(z3.StringVal('-'), z3.IntToStr(-i)))), S.Str)
+        if k == 'any':
+            self.used_trusted.add('str(x) of an untyped value: an uninterpreted function of the value')
+            sf = z3.Function('py_str', S.PyObj(), z3.StringSort())
+            return V(S.mk_str(z3.If(S.is_str(v.t), S.sval(v.t), sf(v.t))), S.Str)
         raise Unsupported(f'str() of {v.ty}: {desc}')
 
     def ev_Call(self, e, st):
@@ -1587,7 +1632,12 @@ class Exec:
             if ci is not None and getattr(ci, 'has_len', False):
                 raise Unsupported(f'truthiness of {cls} with __len__ but no contract')
             return z3.BoolVal(True)
-        if k in ('fn', 'opaque'):
+        if k == 'opaque':
+            fn = self.reg.opaque_truth.get(v.ty.name)
+            if fn is not None:
+                return fn(self, st, v)
+            return z3.BoolVal(True)
+        if k == 'fn':
             return z3.BoolVal(True)
         if k == 'float':
             raise Unsupported('truthiness of float')
